@@ -13,6 +13,11 @@ func init() { props["C01"] = runC01 }
 func tmXID(ctx context.Context) string { return tm.GetXID(ctx) }
 
 func genATCase(r *Rng, w *ATWorld, id string, o ATGenOpts) *ATCase {
+	if o.AutoInc {
+		// the auto-increment counter is predicted by driver glue that assumes every statement runs:
+		// no statement in these cases is meant to fail
+		o.AllowFindings, o.PKUpdates, o.ContinueOnError = false, false, false
+	}
 	c := &ATCase{ID: id}
 	c.Ser = []string{"json", "json", "protobuf"}[r.Intn(3)]
 	c.Comp = []string{"None", "None", "Gzip", "Zip", "Lz4", "Zstd", "Deflate", "Bzip2", "gzip"}[r.Intn(9)]
@@ -44,7 +49,7 @@ func genATCase(r *Rng, w *ATWorld, id string, o ATGenOpts) *ATCase {
 		}
 		// a statement the database fails (injected): in a lenient transaction the rest goes on, otherwise
 		// the local transaction is rolled back
-		if o.ContinueOnError && r.Chance(25) {
+		if o.ContinueOnError && !o.AutoInc && r.Chance(25) {
 			l.Stmts[r.Intn(len(l.Stmts))].ForceFail = true
 			if l.Explicit && len(l.Stmts) > 1 && r.Chance(70) {
 				l.ContinueOnError = true
@@ -52,7 +57,7 @@ func genATCase(r *Rng, w *ATWorld, id string, o ATGenOpts) *ATCase {
 		}
 		// an explicit transaction whose application ignores a failed statement (an INSERT of an existing
 		// key) and commits what went through
-		if l.Explicit && o.ContinueOnError && len(c.Rows) > 0 && r.Chance(40) {
+		if l.Explicit && o.ContinueOnError && !o.AutoInc && len(c.Rows) > 0 && r.Chance(40) {
 			l.ContinueOnError = true
 			src := c.Rows[r.Intn(len(c.Rows))]
 			var es []*ATExpr
